@@ -45,7 +45,9 @@ def async_part(res, tier, seed, n, long):
         cases.append((f"long{li}", ops + ["D"] + [f"A:{i}" for i in range(NFN)]))
     # one fake shared by two sibling fns (a helper returning the FuncPtr), then one of them re-faked: the other keeps the shared fake (monitor only: S is not a model op)
     cases += [("sh0", ["S:0", "S:4", "A:0", "A:4", "G:0", "A:0", "A:4", "T:4", "F:0", "A:4", "D", "A:0", "A:4"]), ("sh1", ["S:4", "S:0", "G:4", "A:0", "A:4", "F:4", "T:0", "D", "N", "S:0", "A:0", "A:4"]),
-              ("sh2", ["F:0", "S:0", "S:4", "A:0", "G:0", "G:0", "A:4", "A:0"])]
+              ("sh2", ["F:0", "S:0", "S:4", "A:0", "G:0", "G:0", "A:4", "A:0"]),
+              # a fake that lives in another mapping 2-4 GiB from the executable (R), awaited here and on another thread, its sibling untouched
+              ("fr0", ["R:0", "A:0", "T:0", "A:4", "D", "A:0"]), ("fr1", ["F:4", "R:4", "A:4", "A:0", "G:4", "A:4", "R:0", "T:0", "D", "A:4", "A:0"])]
     lines = [f"{cid} {','.join(ops)}" for cid, ops in cases]
     shards = [lines[i::8] for i in range(8)]
     procs = [subprocess.Popen([exe, "async"], stdin=subprocess.PIPE, stdout=subprocess.PIPE, text=True) for _ in shards]
@@ -87,14 +89,14 @@ def async_part(res, tier, seed, n, long):
         faked = {}; live = True
         for op, g in zip(ops_m, got):
             t = op.split(":")
-            if t[0] in ("F", "G", "S") and live: faked[int(t[1])] = {"F": "f", "G": "g", "S": "s"}[t[0]]
+            if t[0] in ("F", "G", "S", "R") and live: faked[int(t[1])] = {"F": "f", "G": "g", "S": "s", "R": "r"}[t[0]]
             elif t[0] == "D": faked = {}; live = False
             elif t[0] == "N": live = True
             elif t[0] in ("A", "T"):
                 i = int(t[1]); f = g.split(":")
                 distinct.add((i, i in faked, t[0], tuple(f[1:2] + f[2:])))
                 if i in faked:
-                    if not (f[2] == "1" and f[3] == "0" and (f[4] == "1" or faked[i] == "s") and (f[1].startswith(faked[i]) or (i == 2 and f[1] == "u"))):
+                    if not (f[2] == "1" and f[3] == "0" and (f[4] == "1" or faked[i] in ("s", "r")) and (f[1].startswith(faked[i]) or (i == 2 and f[1] == "u"))):
                         res.violation(f"await of the faked async fn {i} gave value={f[1]} polls={f[2]} body_runs={f[3]} evaluations={f[4]}; must complete on the first poll with a fresh value OF THE MOST RECENT FAKE and no body run", case, g)
                 else:
                     if not (f[1] in ("o", "u") and f[2] == str(1 + YIELDS[i]) and f[3] == "1" and f[4] == "0"):
@@ -103,7 +105,7 @@ def async_part(res, tier, seed, n, long):
             res.violation("after the injector is gone the async functions do not all behave as originally", case, o.get("AFTER"))
         # unit output has no value to classify: the model says f<k>, the harness u
         norm = lambda xs: [x if not x.startswith("2:") else "2:u:" + x.split(":", 2)[2] for x in xs]
-        if not any(op.startswith("S:") for op in ops) and norm(got) != norm(want): corr.append(dict(case=case, impl=got, model=want))
+        if not any(op.startswith(("S:", "R:")) for op in ops) and norm(got) != norm(want): corr.append(dict(case=case, impl=got, model=want))
     res.cov["evaluations"] += sum(len(o) for _, o in cases); res.cov["traces_validated_against_impl"] += len(cases); res.cov["distinct_nontrivial"] += len(distinct)
     res.cov["samples"] += lines[:2]
     if corr: res.broke(f"correspondence real async vs Async.arun: {len(corr)} disagreements", json.dumps(corr[:3])[:4000])
